@@ -65,6 +65,20 @@ def main() -> int:
         return fs, h
 
     cc.Exec.finish = finish  # type: ignore[method-assign]
+    orig_run_w = cc.run_w
+
+    def run_w(*a, **kw):  # type: ignore[no-untyped-def]
+        r = orig_run_w(*a, **kw)
+        print(f"---- engine-W execution: end={r['end']} commits={r['commits']} stats={r['stats']}")
+        if "-q" not in sys.argv:
+            timeline(r["h"])
+        print("  ledger:", [(e["i"], e["key"], e.get("it"), e["result"], "w%s" % e.get("worker"), "c%d" % e["commit_count"]) for e in r["ledger"]])
+        fs = r["fs"]
+        print("  final:", fs["wf_status"], {k: v["status"] for k, v in fs["stages"].items()}, "queue", fs["queue"], "dlq", fs["dlq"])
+        return r
+
+    cc.run_w = run_w  # type: ignore[assignment]
+    import checks.dflow as _df  # noqa: F401  (imports run_w lazily from checks.common)
     mod = load_check(rep["check"])
     vs = mod.replay_one(rep)
     print("violations:", json.dumps([{k: v for k, v in x.items() if k != "replay"} for x in vs], indent=1)[:3000])
